@@ -104,8 +104,8 @@ func Minimise(p Property, env *Env, c Case, v Violation, budget int) Case {
 		// individual decisions: lower the value (prefer simpler alternatives)
 		if !improved {
 			for _, i := range idx {
-				if used >= budget || cur.Choices[i].C <= 1 {
-					continue
+				if used >= budget || i >= len(cur.Choices) || cur.Choices[i].C <= 1 {
+					continue // (an accepted candidate may have shortened the trace)
 				}
 				cc := cur
 				cc.Choices = append([]Choice(nil), cur.Choices...)
